@@ -19,6 +19,7 @@ import (
 	"crypto/sha512"
 	"fmt"
 	"hash"
+	"sort"
 	"strings"
 
 	"golang.org/x/crypto/chacha20"
@@ -347,6 +348,13 @@ func exec(line string) string {
 		return execPrim(o)
 	case "tables":
 		return "ciphers=" + strings.Join(ssh.VerifCipherTable(), ",") + ";macs=" + strings.Join(ssh.VerifMACTable(), ",")
+	case "algos":
+		a, b := ssh.SupportedAlgorithms(), ssh.InsecureAlgorithms()
+		cs := append(append([]string{}, a.Ciphers...), b.Ciphers...)
+		ms := append(append([]string{}, a.MACs...), b.MACs...)
+		sort.Strings(cs)
+		sort.Strings(ms)
+		return "ciphers=" + strings.Join(cs, ",") + ";macs=" + strings.Join(ms, ",")
 	case "npc":
 		return execNpc(o)
 	case "km":
@@ -480,7 +488,7 @@ func allPairs() [][2]string {
 
 func gen(g *hx.Gen) {
 	r := g.R
-	n := g.Count(450, 12000)
+	n := g.Count(350, 12000)
 
 	// the primitives alone
 	for i := 0; i < 60; i++ {
@@ -519,6 +527,7 @@ func gen(g *hx.Gen) {
 
 	// the package's cipher and MAC tables against the model's
 	g.Emit("tables")
+	g.Emit("algos")
 	// newPacketCipher: every cipher (every key / IV size) x both directions x every exchange hash, MACs rotating
 	// (every MAC key size); K as an mpint-encoded value, session id = or != H
 	allC := append(append(append([]string{}, streamCiphers...), cbcCiphers...), aeadCiphers...)
@@ -596,7 +605,7 @@ func gen(g *hx.Gen) {
 		}
 		opSuffix = " edge=maxpkt"
 		emitW(g, r, e.c, e.m, r.U32(), []int{e.lastOK + 1})
-		if g.Thorough() || i%2 == 0 {
+		if g.Thorough() || i%3 == 0 {
 			emitW(g, r, e.c, e.m, r.U32(), []int{maxPacket})
 		}
 		opSuffix = ""
@@ -604,7 +613,7 @@ func gen(g *hx.Gen) {
 	}
 	big := allPairs()
 	hx.Shuffle(r, big)
-	nbig := 2
+	nbig := 1
 	if g.Thorough() {
 		nbig = len(big)
 	}
@@ -612,7 +621,11 @@ func gen(g *hx.Gen) {
 		emitW(g, r, pr[0], pr[1], r.U32(), []int{r.PickInt(maxPacket-10, maxPacket-30, maxPacket-19, maxPacket-21, maxPacket-12, maxPacket-9), 5})
 		g.Stat("len.maxPacket-region")
 	}
-	for _, c := range []string{"aes128-ctr", "none", "aes128-gcm@openssh.com", "aes128-cbc", "chacha20-poly1305@openssh.com"} {
+	aboveMax := []string{"aes128-ctr", "none", "aes128-gcm@openssh.com", "aes128-cbc", "chacha20-poly1305@openssh.com"}
+	if !g.Thorough() {
+		aboveMax = []string{"aes128-ctr", hx.Pick(r, aboveMax[1:])}
+	}
+	for _, c := range aboveMax {
 		m := "-"
 		if c == "aes128-ctr" || c == "aes128-cbc" {
 			m = "hmac-sha2-256"
